@@ -16,6 +16,10 @@ import fcntl, hashlib, json, os, re, shutil, subprocess, tempfile, threading, ti
 from vlib import *
 
 HERE = Path(__file__).resolve().parent
+# mutated DSL programs may contain output redirects and system()/exec(): every mlr run of this check happens in a
+# throw-away working directory with shelling-out disabled (MLR_NO_SHELL is Miller's own switch)
+SANDBOX = {"dir": None}
+SAFE_ENV = {"MLR_NO_SHELL": "true", "MLRRC": "__none__", "TZ": "UTC"}
 # parallelism of the in-process workers / mlr runs; VERIF_JOBS overrides (the coordinator measures on an idle machine)
 NJOBS = max(1, int(os.environ.get("VERIF_JOBS", "4") or 4))
 
@@ -206,9 +210,9 @@ def dsl_call(name, args):
 
 def run_cli(ctx, args, stdin=b"", timeout=25, max_out=20_000_000):
     """vlib.mlr_run; a wall-clock timeout counts as a hang only when it repeats with twice the time (the host may be loaded)"""
-    st, out, err = mlr_run(ctx, args, stdin, timeout=timeout, max_out=max_out)
+    st, out, err = mlr_run(ctx, args, stdin, timeout=timeout, max_out=max_out, env=SAFE_ENV, cwd=SANDBOX["dir"])
     if st == "hang":
-        st, out, err = mlr_run(ctx, args, stdin, timeout=2 * timeout, max_out=max_out)
+        st, out, err = mlr_run(ctx, args, stdin, timeout=2 * timeout, max_out=max_out, env=SAFE_ENV, cwd=SANDBOX["dir"])
     return st, out, err
 
 
@@ -361,7 +365,7 @@ def inproc_group(exe, reqs, timeout_ms=8000):
         payload = "".join(json.dumps({"id": r["id"], "args": r["args"], "stdin": r.get("stdin", b"").hex(), "timeout_ms": timeout_ms}) + "\n" for r in todo)
         try:
             p = subprocess.run([exe, "mlr-inproc"], input=payload.encode(), capture_output=True,
-                               timeout=60 + len(todo) * (timeout_ms / 1000.0 + 1), env=dict(os.environ, MLRRC="__none__", TZ="UTC"))
+                               timeout=60 + len(todo) * (timeout_ms / 1000.0 + 1), env=dict(os.environ, **SAFE_ENV), cwd=SANDBOX["dir"])
             out, err, rc = p.stdout, p.stderr, p.returncode
         except subprocess.TimeoutExpired as e:
             out, err, rc = e.stdout or b"", e.stderr or b"", 124
@@ -456,7 +460,11 @@ NASTY = [b'"', b'""', b"'", b"\\", b"\x00", b"\xff", b"\xc3", b"\xef\xbb\xbf", b
          b"{", b"}", b"[", b"]", b":", b"null", b"\\u", b"\\ud800", b"1e999", b"-", b"- ", b"---\n", b"&a", b"*a", b"!!", b"%", b"\xe2\x90\x9f", b"\x1f", b"\x1e"]
 
 
-def mutate(rng, doc):
+FMT_SEP = {"csv": b",", "csvlite": b",", "tsv": b"\t", "dkvp": b",", "nidx": b" ", "pprint": b" ", "markdown": b" | ", "xtab": b" ",
+           "dkvpx": b",", "usv": b"\xe2\x90\x9f", "asv": b"\x1f", "json": b",", "jsonl": b",", "yaml": b": ", "dcf": b": ", "recutils": b": "}
+
+
+def mutate(rng, doc, fsep=None):
     """grammar-aware-ish mutation of a valid document; returns (kind, bytes)"""
     k = rng.randrange(14)
     n = len(doc)
@@ -479,7 +487,7 @@ def mutate(rng, doc):
         return "dup-line", b"\n".join(lines[:1] + lines[:1] + lines[1:]) if rng.random() < 0.5 else b"\n".join(lines + lines[-2:])
     if k == 7 and lines:
         li = rng.randrange(len(lines))
-        sep = rng.choice([b",", b"\t", b" ", b"|", b"="])
+        sep = fsep if (fsep and rng.random() < 0.7) else rng.choice([b",", b"\t", b" ", b"|", b"="])
         lines[li] = lines[li] + sep + b"extra" if rng.random() < 0.5 else lines[li].rsplit(sep, 1)[0]
         return "longer-shorter-line", b"\n".join(lines)
     if k == 8:
@@ -509,11 +517,18 @@ def reader_cases(ctx):
                 docs += [("truncate-every-byte", small[:i]) for i in range(1, len(small), step)]
             for _ in range(per):
                 d = rng.choice(seeds)
-                kind, m = mutate(rng, d)
+                kind, m = mutate(rng, d, FMT_SEP.get(fmt))
                 if rng.random() < 0.3:
-                    k2, m = mutate(rng, m)
+                    k2, m = mutate(rng, m, FMT_SEP.get(fmt))
                     kind += "+" + k2
                 docs.append((kind, m))
+            # data lines longer / shorter than the header, with the format's own separator
+            for d in seeds[:2]:
+                ls = d.split(b"\n")
+                for li in range(1, min(len(ls), 4)):
+                    if ls[li]:
+                        docs.append(("longer-line", b"\n".join(ls[:li] + [ls[li] + FMT_SEP[fmt] + b"extra"] + ls[li + 1:])))
+                        docs.append(("shorter-line", b"\n".join(ls[:li] + [ls[li].rsplit(FMT_SEP[fmt], 1)[0]] + ls[li + 1:])))
             for kind, d in docs:
                 cases.append({"fmt": fmt, "opt": oname, "kind": kind, "args": FMT_FLAG[fmt] + OPTSETS[oname] + ["--ojson", "cat"], "stdin": d})
     return cases
@@ -635,7 +650,7 @@ def line_reader_correspondence(ctx, exe):
             if rng.random() < 0.5:
                 docs.append(bytes(rng.choice(alpha[fmt]) for _ in range(rng.randint(0, 14))))
             else:
-                docs.append(mutate(rng, rng.choice(SEEDS[fmt]))[1][:400])
+                docs.append(mutate(rng, rng.choice(SEEDS[fmt]), FMT_SEP[fmt])[1][:400])
         if fmt == "dkvp":
             docs += [b"a=1,a=2,a=3,a_2=9\n", b"a_2=1,a=2,a=3\n", b"=,=,=\n", b"a=b=c,=\n", b",,,\n", b"x,y,z\n", b"3=a,b,c\n", b"a=1,b\n"]
         if fmt == "tsv":
@@ -687,7 +702,25 @@ def line_reader_correspondence(ctx, exe):
     if cerr:
         ctx.violation({"broken": "correspondence-evaluation", "detail": cerr[-2000:]}, found_input=False)
         return
-    for i in bad[:3]:
+    # model and implementation differ: search around the disagreeing inputs for one on which mlr panics or hangs
+    found = False
+    for i in bad[:12]:
+        fmt, d, recs, err = tmeta[i]
+        ls = d.split(b"\n")
+        variants = [d, b"\n".join(l + FMT_SEP[fmt] + b"x" for l in ls), b"\n".join(ls[:1] + [l + FMT_SEP[fmt] + b"x" + FMT_SEP[fmt] + b"y" for l in ls[1:]]),
+                    b"\n".join(ls[:1] + [l.rsplit(FMT_SEP[fmt], 1)[0] for l in ls[1:]])]
+        for v in variants:
+            st, out, e2 = run_cli(ctx, [FMT_FLAG[fmt][0], "--ojson", "cat"], v, timeout=20)
+            k = c18_classify(st, e2)
+            if k not in ("ok", "mlr_error"):
+                ctx.violation({"class": reader_class({"fmt": fmt}, k, e2), "part": "reader", "broken": "correspondence C18.Harness.chk", "args": [FMT_FLAG[fmt][0], "--ojson", "cat"],
+                               "input": "mlr %s --ojson cat < stdin" % FMT_FLAG[fmt][0], "stdin_hex": v.hex(), "observed": "%s exit=%s %s" % (k, st, e2.decode("utf-8", "replace")[:400]),
+                               "expected": "records or an `mlr:` error with non-zero exit"})
+                found = True
+                break
+        if found:
+            break
+    for i in ([] if found else bad[:3]):
         fmt, d, recs, err = tmeta[i]
         ctx.violation({"broken": "correspondence C18.Harness.chk (line-reader model vs implementation)", "format": fmt, "stdin_hex": d.hex(),
                        "observed_records": [[(k.decode("latin1"), v.decode("latin1")) for k, v in r] for r in recs], "observed_error": err},
@@ -862,6 +895,15 @@ def run(ctx):
                        "readers other than DKVP/NIDX/TSV are not modelled in Coq here (C01/C02 hold those models); they are covered by the mutation harness only",
                        "the DSL front end is exercised, not modelled"]
     exe = build_instrumented(ctx)
+    SANDBOX["dir"] = tempfile.mkdtemp(prefix="verif-c18-cwd.")
+    try:
+        run_parts(ctx, exe)
+    finally:
+        shutil.rmtree(SANDBOX["dir"], ignore_errors=True)
+        SANDBOX["dir"] = None
+
+
+def run_parts(ctx, exe):
     mats = gen_bif_table(ctx, exe)
     forbidden_gate(ctx, ["Base", "C18"])
     ok, why = check_props(ctx, "C18/Props.v", ["C18/TableProofs.vo", "C18/Harness.vo", "C18/Proofs.vo"])
@@ -879,6 +921,15 @@ def run(ctx):
 
 
 def replay(ctx, path):
+    SANDBOX["dir"] = tempfile.mkdtemp(prefix="verif-c18-cwd.")
+    try:
+        replay_in(ctx, path)
+    finally:
+        shutil.rmtree(SANDBOX["dir"], ignore_errors=True)
+        SANDBOX["dir"] = None
+
+
+def replay_in(ctx, path):
     obj = json.loads(Path(path).read_text())
     part = obj.get("part")
     if part == "bif" and obj.get("cli_program"):
@@ -888,14 +939,14 @@ def replay(ctx, path):
         if c not in ("ok", "mlr_error"):
             ctx.violation(dict(obj, replayed=True, observed="%s exit=%s" % (c, st)))
     elif part in ("reader",) and "stdin_hex" in obj:
-        st, out, err = mlr_run(ctx, obj["args"], bytes.fromhex(obj["stdin_hex"]), timeout=25)
+        st, out, err = run_cli(ctx, obj["args"], bytes.fromhex(obj["stdin_hex"]), timeout=25)
         c = c18_classify(st, err)
         print("replay: mlr %s -> %s exit=%s" % (" ".join(obj["args"]), c, st))
         ctx.count(obj["stdin_hex"])
         if c not in ("ok", "mlr_error"):
             ctx.violation(dict(obj, replayed=True, observed="%s exit=%s" % (c, st)))
     elif part == "dsl" and "program" in obj:
-        st, out, err = mlr_run(ctx, ["put", obj["program"]], b"a=pan,b=wye,i=1,x=0.3467901443380824,y=0.7268028627434533,s=\xff\n", timeout=20)
+        st, out, err = run_cli(ctx, ["put", obj["program"]], b"a=pan,b=wye,i=1,x=0.3467901443380824,y=0.7268028627434533,s=\xff\n", timeout=20)
         c = c18_classify(st, err)
         print("replay: mlr put %r -> %s exit=%s" % (obj["program"], c, st))
         ctx.count(obj["program"])
